@@ -261,9 +261,13 @@ def internal(version, state, emits, msg, metric, local_time):
     return LE1, emits
 
 
-def ref_set_child_value(version, state, node, child, value_type, value):
-    """Controller call set_child_value with a value type / value that is valid for the versions
-    involved.  Returns ('ok' | 'raises', expected emissions)."""
+def ref_set_child_value(version, state, node, child, value_type, value, node_types=None):
+    """Controller call set_child_value with a value type / value that is valid for the gateway's
+    version.  Returns ('ok' | 'raises' | 'may-refuse', expected emissions).  `node_types` maps a
+    node's presented version to the value types that carry this value in that version: a desired
+    value for a sleeping node that is not valid for the node's own version may be refused to the
+    caller (C08: refused at call time) - the caller of this function applies the update with
+    ref_apply_desired when the call was accepted."""
     emits = []
     if not known(version, state, emits, node, child):
         return "ok", emits
@@ -271,10 +275,16 @@ def ref_set_child_value(version, state, node, child, value_type, value):
     if sleeping(me):
         if child not in me["desired"]:
             return "raises", emits  # presented after the last wake-up: refused to the caller
+        if node_types is not None and value_type not in node_types[me["version"]]:
+            return "may-refuse", emits
         me["desired"][child][value_type] = value
         return "ok", emits
     emits.append((node, child, 1, value_type, value))
     return "ok", emits
+
+
+def ref_apply_desired(state, node, child, value_type, value):
+    state["nodes"][node]["desired"][child][value_type] = value
 
 
 def ref_update_fw(state, node_ids, fw_id, fware):
